@@ -322,11 +322,13 @@ pub fn execute(sc: &RenderScenario, stats: &mut Stats) -> Outcome {
             // ---- reference: perfect writer
             let steps0 = engine::steps();
             let mut w = SimWriter::new(WPlan::perfect());
+            engine::escape_calls_reset();
             // bounded liveness without a wall clock: the generator keeps predicted work far below
             engine::set_step_limit(engine::steps() + 50_000_000);
             let rr = catch(|| run_target(&t, target, ctx, &mut w));
             engine::clear_step_limit();
             let hit = engine::step_limit_hit();
+            let esc_calls = engine::escape_calls();
             let r = match rr {
                 Ok(r) => r,
                 Err(p) => {
@@ -526,6 +528,39 @@ pub fn execute(sc: &RenderScenario, stats: &mut Stats) -> Outcome {
                         log.u64(fw.stats.fired as u64);
                     }
                 }
+            }
+
+            // ---- (b') the user's escape function fails (existing callback seam): an error value,
+            // never a panic — also while a capture, include, block or component is open
+            if sc.config.custom && esc_calls > 0 {
+                let n_points = if matches!(sc.faults, FaultSpec::Exhaustive { .. }) { 48 } else { 6 };
+                let erng = Rng::new(sc.transient_seed ^ 0xE5CA ^ ((ti as u64) << 16) ^ ci as u64);
+                for j in 0..n_points.min(esc_calls) {
+                    let k = if j == 0 { 0 } else if j == 1 { esc_calls - 1 } else { erng.below(esc_calls as usize) as u64 };
+                    engine::escape_calls_reset();
+                    engine::set_escape_fault(Some(k));
+                    let mut ew = SimWriter::new(WPlan::perfect());
+                    let res = catch(|| run_target(&t, target, ctx, &mut ew));
+                    engine::set_escape_fault(None);
+                    let fired = engine::escape_fault_fired();
+                    stats.inc("fault_configured_escape_fn_error");
+                    let _ = engine::take_end_state_violation();
+                    match res {
+                        Err(p) => out.violations.push(Violation::new("C07", "panic-when-escape-fn-fails", format!("target {} ctx {} escape call {}: {}", ti, ci, k, p))),
+                        Ok(r) => {
+                            if fired {
+                                stats.inc("fault_fired_escape_fn_error");
+                                if r.is_ok() {
+                                    stats.inc("probe_escape_fn_error_swallowed");
+                                }
+                                if !rf.bytes.starts_with(&ew.accepted) {
+                                    stats.inc("probe_escape_fn_error_output_not_prefix");
+                                }
+                            }
+                        }
+                    }
+                }
+                engine::escape_calls_reset();
             }
 
             // ---- (c) purity of the context
